@@ -14,7 +14,7 @@ PROP = dict(
                        "all_accepted_written_when_seed_leaves_archiver", "attempts_le", "retry_rule (retry_iff: attempts follow the retry rule)"]),
         # end to end: whole real crawls (controler.Start/Stop, local queue, all stages); at the instant a seed is
         # reported finished the WARC files on disk are read with the independent reader (monitor 10)
-        dict(driver="pipe", quick=14, thorough=600, shard=7, noshrink=True,
+        dict(driver="pipebodies", quick=14, thorough=600, shard=7, noshrink=True,
              monitors=["finished_exactly_once", "finished_only_when_tree_done", "no_fetch_after_finish", "every_built_request_fetched_before_pass_end",
                        "in_flight_le_tokens", "reactor_idle_at_quiescence", "wellformed_at_stage_boundaries", "seed_in_one_place_at_a_time",
                        "attempts_le_max_retry_plus_1", "redirect_chain_and_asset_depth_bounds",
